@@ -90,33 +90,32 @@ Proof.
   intros g Hl Hok.
   do 16 (destruct g as [|? g]; [discriminate Hl|]). destruct g; [|discriminate Hl]. clear Hl.
   unfold guid_parse, guid_string. rewrite guid_swap_explicit.
+  unfold bytes_ok in Hok. cbn [forallb] in Hok.
+  repeat (apply andb_true_iff in Hok; destruct Hok as [? Hok]). clear Hok.
+  Ltac ok_list := unfold bytes_ok; cbn [forallb]; repeat (apply andb_true_iff; split; [assumption|]); reflexivity.
   set (u := [z2; z1; z0; z; z4; z3; z6; z5; z7; z8; z9; z10; z11; z12; z13; z14]).
-  assert (Hu : bytes_ok u = true).
-  { unfold bytes_ok in *. rewrite forallb_forall in *. intros x Hx. apply Hok.
-    unfold u in Hx. cbn [In] in *. intuition. }
+  assert (Hu : bytes_ok u = true) by (unfold u; ok_list).
   change (sub 0 4 u) with [z2; z1; z0; z].
   change (sub 4 2 u) with [z4; z3].
   change (sub 6 2 u) with [z6; z5].
   change (sub 8 2 u) with [z7; z8].
   change (sub 10 6 u) with [z9; z10; z11; z12; z13; z14].
   change (fun c : Z => negb (c =? 45)) with nothyphen.
-  assert (Hs : forall l, bytes_ok l = true -> forall r, filter nothyphen (hexs l ++ r) = hexs l ++ filter nothyphen r).
+  assert (Hs : forall l, bytes_ok l = true -> forall r, filter nothyphen (hexs l ++ 45 :: r) = hexs l ++ filter nothyphen r).
   { intros l Hl r. rewrite filter_app, filter_hexs; auto. }
-  assert (Hsub : forall l, (forall x, In x l -> In x u) -> bytes_ok l = true).
-  { intros l Hin. unfold bytes_ok. apply forallb_forall. intros x Hx.
-    unfold bytes_ok in Hu. rewrite forallb_forall in Hu. apply Hu, Hin, Hx. }
-  rewrite Hs by (apply Hsub; unfold u; cbn [In]; intuition).
-  change ([45] ++ ?r) with (45 :: r). cbn [app filter]. change (nothyphen 45) with false. cbv iota.
-  rewrite Hs by (apply Hsub; unfold u; cbn [In]; intuition).
-  cbn [app filter]. change (nothyphen 45) with false. cbv iota.
-  rewrite Hs by (apply Hsub; unfold u; cbn [In]; intuition).
-  cbn [app filter]. change (nothyphen 45) with false. cbv iota.
-  rewrite Hs by (apply Hsub; unfold u; cbn [In]; intuition).
-  cbn [app filter]. change (nothyphen 45) with false. cbv iota.
-  rewrite filter_hexs by (apply Hsub; unfold u; cbn [In]; intuition).
-  rewrite <- !hexs_app. cbn [app]. fold u.
+  change ([45] ++ ?r) with (45 :: r).
+  rewrite (Hs [z2; z1; z0; z]) by ok_list.
+  change ([45] ++ ?r) with (45 :: r).
+  rewrite (Hs [z4; z3]) by ok_list.
+  change ([45] ++ ?r) with (45 :: r).
+  rewrite (Hs [z6; z5]) by ok_list.
+  change ([45] ++ ?r) with (45 :: r).
+  rewrite (Hs [z7; z8]) by ok_list.
+  rewrite filter_hexs by ok_list.
+  rewrite <- !hexs_app.
+  change ([z2; z1; z0; z] ++ [z4; z3] ++ [z6; z5] ++ [z7; z8] ++ [z9; z10; z11; z12; z13; z14]) with u.
   rewrite hex_decode_hexs by exact Hu.
-  change (zlen u) with 16. cbn [Z.eqb Pos.eqb]. unfold u. rewrite guid_swap_explicit. reflexivity.
+  change (zlen u =? 16) with true. cbv iota. unfold u. rewrite guid_swap_explicit. reflexivity.
 Qed.
 
 Lemma guid_string_inj_lemma : forall g g',
@@ -128,3 +127,1006 @@ Proof.
   pose proof (guid_text_roundtrip_lemma g' H3 H4) as B.
   rewrite E in A. rewrite A in B. congruence.
 Qed.
+
+(* ---------- Find: what Matches holds ---------- *)
+
+Definition is_filen (n : node) : bool := match n with NFile _ _ _ => true | _ => false end.
+Definition is_voln (n : node) : bool := match n with NVol _ _ _ => true | _ => false end.
+Definition nfiles (l : list node) : nat := length (filter is_filen l).
+Definition nvols (l : list node) : nat := length (filter is_voln l).
+
+(* number of files (anywhere in the tree) that Find puts into Matches / of matching volumes *)
+Fixpoint cf (s : sel) (n : node) {struct n} : nat :=
+  match n with
+  | NFile h b kids => (if fmatch s n then 1 else 0) + list_sum (map (cf s) kids)
+  | NSec _ _ kids => list_sum (map (cf s) kids)
+  | NVol _ _ kids => list_sum (map (cf s) kids)
+  | NPad _ _ => 0
+  end.
+Fixpoint cv (s : sel) (n : node) {struct n} : nat :=
+  match n with
+  | NVol h _ kids => (if pred_fv s h then 1 else 0) + list_sum (map (cv s) kids)
+  | NFile _ _ kids => list_sum (map (cv s) kids)
+  | NSec _ _ kids => list_sum (map (cv s) kids)
+  | NPad _ _ => 0
+  end.
+Definition cfl s (l : list node) : nat := list_sum (map (cf s) l).
+Definition cvl s (l : list node) : nat := list_sum (map (cv s) l).
+
+Definition cur_ok (cur : option node) : Prop :=
+  match cur with Some f => is_filen f = true | None => True end.
+Definition is_some {A} (o : option A) : bool := match o with Some _ => true | None => false end.
+Definition b2n (b : bool) : nat := if b then 1%nat else 0%nat.
+
+Lemma nfiles_app a b : nfiles (a ++ b) = (nfiles a + nfiles b)%nat.
+Proof. unfold nfiles. rewrite filter_app, app_length. reflexivity. Qed.
+Lemma nvols_app a b : nvols (a ++ b) = (nvols a + nvols b)%nat.
+Proof. unfold nvols. rewrite filter_app, app_length. reflexivity. Qed.
+
+Definition find_post (s : sel) (hits : bool) (nf nv : nat) (cur : option node)
+  (r : list node * option node) : Prop :=
+  nfiles (fst r) = (nf + b2n (is_some cur && hits))%nat /\
+  nvols (fst r) = nv /\
+  snd r = (if hits then None else cur) /\
+  Forall (fun m => is_filen m || is_voln m = true) (fst r).
+
+Lemma find_list_post s l :
+  Forall (fun n => forall cur, cur_ok cur ->
+            find_post s (sec_hits s n) (cf s n) (cv s n) cur (find_node s n cur)) l ->
+  forall cur, cur_ok cur ->
+    find_post s (existsb (sec_hits s) l) (cfl s l) (cvl s l) cur (find_list s l cur).
+Proof.
+  induction 1 as [|x r Hx Hr IH]; intros cur Hc.
+  - cbn. unfold find_post. cbn. rewrite andb_false_r. repeat split; auto.
+  - cbn [find_list existsb]. specialize (Hx cur Hc).
+    destruct (find_node s x cur) as [m1 c1] eqn:E1.
+    destruct Hx as (A1 & A2 & A3 & A4). cbn [fst snd] in *.
+    assert (Hc1 : cur_ok c1) by (subst c1; destruct (sec_hits s x); [exact I | exact Hc]).
+    specialize (IH c1 Hc1). destruct (find_list s r c1) as [m2 c2] eqn:E2.
+    destruct IH as (B1 & B2 & B3 & B4). cbn [fst snd] in *.
+    unfold find_post. cbn [fst snd]. unfold cfl, cvl in *. cbn [map list_sum].
+    rewrite nfiles_app, nvols_app, A1, A2, B1, B2.
+    repeat split.
+    + subst c1. unfold list_sum. destruct (sec_hits s x), (existsb (sec_hits s) r), cur; cbn; lia.
+    + subst c2 c1. destruct (sec_hits s x), (existsb (sec_hits s) r); reflexivity.
+    + apply Forall_app; auto.
+Qed.
+
+Lemma nfiles_one f : is_filen f = true -> nfiles [f] = 1%nat.
+Proof. intros H. unfold nfiles. cbn [filter]. rewrite H. reflexivity. Qed.
+Lemma nvols_file f : is_filen f = true -> nvols [f] = 0%nat.
+Proof. destruct f; try discriminate. reflexivity. Qed.
+
+Lemma find_node_post s : forall n cur, cur_ok cur ->
+  find_post s (sec_hits s n) (cf s n) (cv s n) cur (find_node s n cur).
+Proof.
+  induction n as [h buf kids IH | h buf kids IH | h buf kids IH | off buf] using node_ind'; intros cur Hc.
+  - (* section *)
+    change (find_node s (NSec h buf kids) cur) with
+      (let hit := match cur with Some _ => pred_sec s h | None => false end in
+       let m := if hit then match cur with Some f => [f] | None => [] end else [] in
+       let '(m2, c2) := find_list s kids (if hit then None else cur) in (m ++ m2, c2)).
+    cbv zeta.
+    set (hit := match cur with Some _ => pred_sec s h | None => false end).
+    assert (Hc' : cur_ok (if hit then None else cur)) by (destruct hit; [exact I | exact Hc]).
+    pose proof (find_list_post s kids IH _ Hc') as Hl.
+    destruct (find_list s kids (if hit then None else cur)) as [m2 c2].
+    destruct Hl as (B1 & B2 & B3 & B4). cbn [fst snd] in *.
+    unfold find_post. cbn [fst snd sec_hits cf cv]. fold (cfl s kids) (cvl s kids).
+    rewrite nfiles_app, nvols_app, B1, B2. subst c2.
+    destruct cur as [f|]; cbn in Hc; subst hit.
+    + destruct (pred_sec s h); cbn [orb is_some andb b2n].
+      * rewrite (nfiles_one f Hc), (nvols_file f Hc).
+        repeat split; auto; try lia.
+        -- destruct (existsb (sec_hits s) kids); reflexivity.
+        -- constructor; auto. rewrite Hc. reflexivity.
+      * repeat split; auto.
+    + cbn [is_some andb b2n]. repeat split; auto.
+      destruct (pred_sec s h || existsb (sec_hits s) kids), (existsb (sec_hits s) kids); reflexivity.
+  - (* file *)
+    change (find_node s (NFile h buf kids) cur) with
+      (let hit := pred_file s h in
+       let '(m2, _) := find_list s kids (if hit then None else Some (NFile h buf kids)) in
+       ((if hit then [NFile h buf kids] else []) ++ m2, cur)).
+    cbv zeta.
+    assert (Hc' : cur_ok (if pred_file s h then None else Some (NFile h buf kids)))
+      by (destruct (pred_file s h); [exact I | reflexivity]).
+    pose proof (find_list_post s kids IH _ Hc') as Hl.
+    destruct (find_list s kids (if pred_file s h then None else Some (NFile h buf kids))) as [m2 c2].
+    destruct Hl as (B1 & B2 & B3 & B4). cbn [fst snd] in *.
+    unfold find_post. cbn [fst snd sec_hits cf cv fmatch]. fold (cfl s kids) (cvl s kids).
+    rewrite nfiles_app, nvols_app, B1, B2. rewrite andb_false_r.
+    destruct (pred_file s h); cbn [orb is_some andb b2n].
+    + rewrite nfiles_one, nvols_file by reflexivity.
+      repeat split; auto; try lia. constructor; auto.
+    + repeat split; auto.
+      unfold nfiles at 1. cbn [filter length]. destruct (existsb (sec_hits s) kids); cbn; lia.
+  - (* volume *)
+    change (find_node s (NVol h buf kids) cur) with
+      (let '(m2, c2) := find_list s kids cur in
+       ((if pred_fv s h then [NVol h buf kids] else []) ++ m2, c2)).
+    pose proof (find_list_post s kids IH _ Hc) as Hl.
+    destruct (find_list s kids cur) as [m2 c2].
+    destruct Hl as (B1 & B2 & B3 & B4). cbn [fst snd] in *.
+    unfold find_post. cbn [fst snd sec_hits cf cv]. fold (cfl s kids) (cvl s kids).
+    rewrite nfiles_app, nvols_app, B1, B2.
+    destruct (pred_fv s h); repeat split; auto; try (cbn; lia).
+    constructor; auto.
+  - cbn. unfold find_post. cbn. rewrite andb_false_r. repeat split; auto.
+Qed.
+
+(* Matches of Find.Run: as many files as [cf] counts, as many volumes as [cv] counts, nothing else *)
+Lemma find_elems_counts s elems :
+  nfiles (find_elems s elems) = cfl s elems /\ nvols (find_elems s elems) = cvl s elems /\
+  Forall (fun m => is_filen m || is_voln m = true) (find_elems s elems).
+Proof.
+  unfold find_elems.
+  assert (H : Forall (fun n => forall cur, cur_ok cur ->
+             find_post s (sec_hits s n) (cf s n) (cv s n) cur (find_node s n cur)) elems).
+  { apply Forall_forall. intros n _. apply find_node_post. }
+  pose proof (find_list_post s elems H None I) as (A & B & _ & D).
+  cbn [is_some andb b2n] in A. rewrite Nat.add_0_r in A. auto.
+Qed.
+
+Lemma len_files_vols l : Forall (fun m => is_filen m || is_voln m = true) l ->
+  length l = (nfiles l + nvols l)%nat.
+Proof.
+  induction 1 as [|m r Hm Hr IH]; [reflexivity|].
+  unfold nfiles, nvols in *. cbn [filter length].
+  destruct m; cbn in Hm |- *; try discriminate; lia.
+Qed.
+
+Lemma find_count_lemma s elems :
+  length (find_elems s elems) = (cfl s elems + cvl s elems)%nat.
+Proof.
+  destruct (find_elems_counts s elems) as (A & B & C).
+  rewrite (len_files_vols _ C), A, B. reflexivity.
+Qed.
+
+(* ---------- generic list facts ---------- *)
+
+Lemma list_sum_cons a l : list_sum (a :: l) = (a + list_sum l)%nat.
+Proof. reflexivity. Qed.
+
+Lemma list_sum_map_zero {A} (g : A -> nat) l :
+  list_sum (map g l) = 0%nat -> Forall (fun x => g x = 0%nat) l.
+Proof.
+  induction l as [|x r IH]; intros H; [constructor|]. cbn [map] in H. rewrite list_sum_cons in H.
+  constructor; [lia | apply IH; lia].
+Qed.
+
+Lemma list_sum_map_one {A} (g : A -> nat) l :
+  list_sum (map g l) = 1%nat ->
+  exists l1 x l2, l = l1 ++ x :: l2 /\ g x = 1%nat /\
+                  Forall (fun y => g y = 0%nat) l1 /\ Forall (fun y => g y = 0%nat) l2.
+Proof.
+  induction l as [|x r IH]; intros H; [discriminate|]. cbn [map] in H. rewrite list_sum_cons in H.
+  destruct (g x) as [|[|k]] eqn:E.
+  - destruct (IH H) as (l1 & y & l2 & -> & Hy & H1 & H2).
+    exists (x :: l1), y, l2. repeat split; auto.
+  - exists [], x, r. repeat split; auto. apply list_sum_map_zero. lia.
+  - lia.
+Qed.
+
+Lemma map_out_id {A} (f : A -> outcome A) l :
+  Forall (fun x => f x = Ok x) l -> map_out f l = Ok l.
+Proof.
+  induction 1 as [|x r Hx Hr IH]; [reflexivity|]. cbn [map_out]. rewrite Hx. cbn [bind].
+  rewrite IH. reflexivity.
+Qed.
+
+Lemma map_out_app {A B} (f : A -> outcome B) l1 l2 :
+  map_out f (l1 ++ l2) = (do a <- map_out f l1; do b <- map_out f l2; Ok (a ++ b)).
+Proof.
+  induction l1 as [|x r IH]; cbn [app map_out bind].
+  - destruct (map_out f l2); reflexivity.
+  - destruct (f x); cbn [bind]; auto. rewrite IH.
+    destruct (map_out f r); cbn [bind]; auto. destruct (map_out f l2); reflexivity.
+Qed.
+
+Lemma map_out_one {A} (f : A -> outcome A) l1 x x' l2 :
+  Forall (fun y => f y = Ok y) l1 -> Forall (fun y => f y = Ok y) l2 -> f x = Ok x' ->
+  map_out f (l1 ++ x :: l2) = Ok (l1 ++ x' :: l2).
+Proof.
+  intros H1 H2 Hx. rewrite map_out_app, (map_out_id f l1 H1). cbn [bind map_out].
+  rewrite Hx. cbn [bind]. rewrite (map_out_id f l2 H2). reflexivity.
+Qed.
+
+Lemma map_one {A} (f : A -> A) l1 x l2 :
+  Forall (fun y => f y = y) l1 -> Forall (fun y => f y = y) l2 ->
+  map f (l1 ++ x :: l2) = l1 ++ f x :: l2.
+Proof.
+  intros H1 H2. rewrite map_app. cbn [map]. f_equal; [|f_equal].
+  - induction H1; cbn; congruence.
+  - induction H2; cbn; congruence.
+Qed.
+
+Lemma zlen_snoc {A} (l : list A) x : zlen (l ++ [x]) = zlen l + 1.
+Proof. rewrite zlen_app. reflexivity. Qed.
+
+Lemma slc_prefix {A} (l1 l2 : list A) : slc 0 (zlen l1) (l1 ++ l2) = Some l1.
+Proof.
+  unfold slc. pose proof (zlen_nonneg l1). pose proof (zlen_nonneg l2). rewrite zlen_app.
+  replace ((0 <=? 0) && (0 <=? zlen l1) && (zlen l1 <=? zlen l1 + zlen l2)) with true by lia.
+  rewrite Z.sub_0_r. change (zskipn 0 (l1 ++ l2)) with (l1 ++ l2). rewrite zfirstn_app_exact. reflexivity.
+Qed.
+
+Lemma slc_suffix {A} (l1 l2 : list A) : slc (zlen l1) (zlen (l1 ++ l2)) (l1 ++ l2) = Some l2.
+Proof.
+  unfold slc. pose proof (zlen_nonneg l1). pose proof (zlen_nonneg l2). rewrite zlen_app.
+  replace ((0 <=? zlen l1) && (zlen l1 <=? zlen l1 + zlen l2) && (zlen l1 + zlen l2 <=? zlen l1 + zlen l2))
+    with true by lia.
+  rewrite zskipn_app_exact. replace (zlen l1 + zlen l2 - zlen l1) with (zlen l2) by lia.
+  rewrite <- (app_nil_r l2) at 2. rewrite zfirstn_app_exact. reflexivity.
+Qed.
+
+(* ---------- the shape of parsed trees ---------- *)
+
+(* class 0: element of the BIOS region; 1: file of a volume; 2: section of a file, or what a
+   section encapsulates (sections, a volume) *)
+Fixpoint shp (c : nat) (n : node) {struct n} : bool :=
+  match c, n with
+  | O, NVol _ _ kids => forallb (shp 1) kids
+  | O, NPad _ _ => true
+  | S O, NFile _ _ kids => forallb (shp 2) kids
+  | S (S O), NSec _ _ kids => forallb (shp 2) kids
+  | S (S O), NVol _ _ kids => forallb (shp 1) kids
+  | _, _ => false
+  end.
+
+(* ---------- Insert ---------- *)
+
+(* "exactly one volume's file list changed, as R says; every other node is the same value" *)
+Inductive vol_edit (R : volhdr -> list node -> list node -> Prop) : node -> node -> Prop :=
+| ve_here h buf fs fs' : R h fs fs' -> vol_edit R (NVol h buf fs) (NVol h buf fs')
+| ve_vol h buf l1 x x' l2 : vol_edit R x x' ->
+    vol_edit R (NVol h buf (l1 ++ x :: l2)) (NVol h buf (l1 ++ x' :: l2))
+| ve_file h buf l1 x x' l2 : vol_edit R x x' ->
+    vol_edit R (NFile h buf (l1 ++ x :: l2)) (NFile h buf (l1 ++ x' :: l2))
+| ve_sec h buf l1 x x' l2 : vol_edit R x x' ->
+    vol_edit R (NSec h buf (l1 ++ x :: l2)) (NSec h buf (l1 ++ x' :: l2)).
+
+Definition elems_edit R (l l' : list node) : Prop :=
+  exists l1 x x' l2, l = l1 ++ x :: l2 /\ l' = l1 ++ x' :: l2 /\ vol_edit R x x'.
+
+(* the list-level meaning of the five insert types at the volume that lists the matched file *)
+Definition ins_list (it : itype) (nf : node) (l1 : list node) (f : node) (l2 : list node) : list node :=
+  match it with
+  | IFront => nf :: l1 ++ f :: l2
+  | IEnd | IDxe => (l1 ++ f :: l2) ++ [nf]
+  | IAfter => l1 ++ f :: nf :: l2
+  | IBefore => l1 ++ nf :: f :: l2
+  | IReplace => l1 ++ nf :: l2
+  end.
+
+Definition Rins (it : itype) (s : sel) (nf : node) (_ : volhdr) (fs fs' : list node) : Prop :=
+  exists l1 f l2, fs = l1 ++ f :: l2 /\ fmatch s f = true /\
+                  Forall (fun x => fmatch s x = false) l1 /\ fs' = ins_list it nf l1 f l2.
+
+Lemma cf_zero_nomatch s x : cf s x = 0%nat -> fmatch s x = false.
+Proof.
+  destruct x; try reflexivity. cbn [cf]. destruct (fmatch s (NFile h buf kids)); [lia | reflexivity].
+Qed.
+
+Lemma first_match_none s files i :
+  Forall (fun x => fmatch s x = false) files -> first_match s files i = None.
+Proof.
+  intros H. revert i. induction H as [|x r Hx Hr IH]; intros i; [reflexivity|].
+  cbn [first_match]. rewrite Hx. apply IH.
+Qed.
+
+Lemma first_match_some s l1 f l2 i :
+  Forall (fun x => fmatch s x = false) l1 -> fmatch s f = true ->
+  first_match s (l1 ++ f :: l2) i = Some (i + zlen l1).
+Proof.
+  intros H Hf. revert i. induction H as [|x r Hx Hr IH]; intros i.
+  - cbn [app first_match]. rewrite Hf. f_equal. rewrite zlen_nil. lia.
+  - cbn [app first_match]. rewrite Hx, IH. f_equal. rewrite zlen_cons. lia.
+Qed.
+
+Lemma first_match_split s files :
+  (Forall (fun x => fmatch s x = false) files) \/
+  (exists l1 f l2, files = l1 ++ f :: l2 /\ fmatch s f = true /\ Forall (fun x => fmatch s x = false) l1).
+Proof.
+  induction files as [|x r IH]; [left; constructor|].
+  destruct (fmatch s x) eqn:E.
+  - right. exists [], x, r. repeat split; auto.
+  - destruct IH as [IH | (l1 & f & l2 & -> & Hf & H1)].
+    + left. constructor; auto.
+    + right. exists (x :: l1), f, l2. repeat split; auto.
+Qed.
+
+Lemma ins_at_ok it nf l1 f l2 :
+  ins_at it nf (l1 ++ f :: l2) (0 + zlen l1) = Ok (ins_list it nf l1 f l2).
+Proof.
+  rewrite Z.add_0_l.
+  assert (E1 : slc 0 (zlen l1 + 1) (l1 ++ f :: l2) = Some (l1 ++ [f])).
+  { rewrite <- zlen_snoc with (x := f).
+    replace (l1 ++ f :: l2) with ((l1 ++ [f]) ++ l2) by (rewrite <- app_assoc; reflexivity).
+    apply slc_prefix. }
+  assert (E2 : slc (zlen l1 + 1) (zlen (l1 ++ f :: l2)) (l1 ++ f :: l2) = Some l2).
+  { rewrite <- zlen_snoc with (x := f).
+    replace (l1 ++ f :: l2) with ((l1 ++ [f]) ++ l2) by (rewrite <- app_assoc; reflexivity).
+    apply slc_suffix. }
+  pose proof (slc_prefix l1 (f :: l2)) as E3.
+  pose proof (slc_suffix l1 (f :: l2)) as E4.
+  destruct it; cbn [ins_at ins_list]; rewrite ?E1, ?E2, ?E3, ?E4; cbn [of_opt bind]; try reflexivity.
+  rewrite <- app_assoc. reflexivity.
+Qed.
+
+Lemma ins_visit_id it s nf : forall n, cf s n = 0%nat -> ins_visit it s nf n = Ok n.
+Proof.
+  induction n as [h buf kids IH | h buf kids IH | h buf kids IH | off buf] using node_ind'; intros Hc;
+    cbn [cf] in Hc.
+  - cbn [ins_visit]. rewrite map_out_id; [reflexivity|].
+    pose proof (list_sum_map_zero _ _ Hc) as Hz.
+    rewrite Forall_forall in *. intros x Hx. apply IH; auto.
+  - cbn [ins_visit]. rewrite map_out_id; [reflexivity|].
+    assert (Hk : list_sum (map (cf s) kids) = 0%nat) by lia.
+    pose proof (list_sum_map_zero _ _ Hk) as Hz.
+    rewrite Forall_forall in *. intros x Hx. apply IH; auto.
+  - cbn [ins_visit].
+    pose proof (list_sum_map_zero _ _ Hc) as Hz.
+    rewrite first_match_none.
+    + rewrite map_out_id; [reflexivity|].
+      rewrite Forall_forall in *. intros x Hx. apply IH; auto.
+    + rewrite Forall_forall in *. intros x Hx. apply cf_zero_nomatch; auto.
+  - reflexivity.
+Qed.
+
+Lemma ins_visit_one it s nf : forall n c, shp c n = true -> cf s n = 1%nat ->
+  (c = 1%nat -> fmatch s n = false) ->
+  exists n', ins_visit it s nf n = Ok n' /\ vol_edit (Rins it s nf) n n'.
+Proof.
+  induction n as [h buf kids IH | h buf kids IH | h buf kids IH | off buf] using node_ind';
+    intros c Hs Hc Hm; cbn [cf] in Hc.
+  - (* section: class 2 *)
+    destruct c as [|[|[|c]]]; try discriminate Hs. cbn [shp] in Hs.
+    destruct (list_sum_map_one _ _ Hc) as (l1 & x & l2 & -> & Hx & H1 & H2).
+    rewrite Forall_forall in IH. rewrite forallb_forall in Hs.
+    destruct (IH x ltac:(apply in_or_app; right; left; reflexivity) 2%nat
+                ltac:(apply Hs, in_or_app; right; left; reflexivity) Hx ltac:(discriminate))
+      as (x' & Ex & Vx).
+    exists (NSec h buf (l1 ++ x' :: l2)). split; [|constructor; exact Vx].
+    cbn [ins_visit]. rewrite (map_out_one _ l1 x x' l2); [reflexivity | | | exact Ex].
+    + eapply Forall_impl; [|exact H1]. intros; apply ins_visit_id; auto.
+    + eapply Forall_impl; [|exact H2]. intros; apply ins_visit_id; auto.
+  - (* file: class 1, itself not matched *)
+    destruct c as [|[|[|c]]]; try discriminate Hs. cbn [shp] in Hs.
+    rewrite (Hm eq_refl) in Hc. cbn [Nat.add] in Hc.
+    destruct (list_sum_map_one _ _ Hc) as (l1 & x & l2 & -> & Hx & H1 & H2).
+    rewrite Forall_forall in IH. rewrite forallb_forall in Hs.
+    destruct (IH x ltac:(apply in_or_app; right; left; reflexivity) 2%nat
+                ltac:(apply Hs, in_or_app; right; left; reflexivity) Hx ltac:(discriminate))
+      as (x' & Ex & Vx).
+    exists (NFile h buf (l1 ++ x' :: l2)). split; [|constructor; exact Vx].
+    cbn [ins_visit]. rewrite (map_out_one _ l1 x x' l2); [reflexivity | | | exact Ex].
+    + eapply Forall_impl; [|exact H1]. intros; apply ins_visit_id; auto.
+    + eapply Forall_impl; [|exact H2]. intros; apply ins_visit_id; auto.
+  - (* volume: class 0 or 2; its children are files *)
+    assert (Hk : forallb (shp 1) kids = true)
+      by (destruct c as [|[|[|c]]]; try discriminate Hs; exact Hs).
+    cbn [ins_visit].
+    destruct (first_match_split s kids) as [Hnone | (l1 & f & l2 & -> & Hf & Hl1)].
+    + rewrite (first_match_none _ _ _ Hnone).
+      destruct (list_sum_map_one _ _ Hc) as (l1 & x & l2 & -> & Hx & H1 & H2).
+      rewrite Forall_forall in IH. rewrite forallb_forall in Hk.
+      assert (Hxin : In x (l1 ++ x :: l2)) by (apply in_or_app; right; left; reflexivity).
+      destruct (IH x Hxin 1%nat (Hk x Hxin) Hx) as (x' & Ex & Vx).
+      { intros _. rewrite Forall_forall in Hnone. apply Hnone, Hxin. }
+      exists (NVol h buf (l1 ++ x' :: l2)). split; [|apply ve_vol; exact Vx].
+      rewrite (map_out_one _ l1 x x' l2); [reflexivity | | | exact Ex].
+      * eapply Forall_impl; [|exact H1]. intros; apply ins_visit_id; auto.
+      * eapply Forall_impl; [|exact H2]. intros; apply ins_visit_id; auto.
+    + rewrite (first_match_some s l1 f l2 0 Hl1 Hf), ins_at_ok. cbn [bind].
+      exists (NVol h buf (ins_list it nf l1 f l2)). split; [reflexivity|].
+      apply ve_here. exists l1, f, l2. auto.
+  - discriminate Hc.
+Qed.
+
+Lemma find_single_file s elems m :
+  find_elems s elems = [m] -> is_filen m = true -> cfl s elems = 1%nat /\ cvl s elems = 0%nat.
+Proof.
+  intros E Hm. destruct (find_elems_counts s elems) as (A & B & _). rewrite E in A, B.
+  rewrite (nfiles_one m Hm) in A. rewrite (nvols_file m Hm) in B. auto.
+Qed.
+
+Lemma find_single_vol s elems m :
+  find_elems s elems = [m] -> is_voln m = true -> cfl s elems = 0%nat /\ cvl s elems = 1%nat.
+Proof.
+  intros E Hm. destruct (find_elems_counts s elems) as (A & B & _). rewrite E in A, B.
+  destruct m; try discriminate Hm. cbn in A, B. auto.
+Qed.
+
+(* Insert.Run, the match is a file *)
+Lemma insert_file_spec it s nf elems m :
+  forallb (shp 0) elems = true -> find_elems s elems = [m] -> is_filen m = true ->
+  exists elems', insert_run it s nf elems = Ok elems' /\ elems_edit (Rins it s nf) elems elems'.
+Proof.
+  intros Hs E Hm. destruct (find_single_file s elems m E Hm) as [Hc _].
+  unfold cfl in Hc. destruct (list_sum_map_one _ _ Hc) as (l1 & x & l2 & -> & Hx & H1 & H2).
+  rewrite forallb_forall in Hs.
+  destruct (ins_visit_one it s nf x 0%nat) as (x' & Ex & Vx); auto.
+  { apply Hs, in_or_app; right; left; reflexivity. }
+  { discriminate. }
+  exists (l1 ++ x' :: l2). split.
+  - unfold insert_run. rewrite E. destruct m; try discriminate Hm.
+    apply map_out_one; auto.
+    + eapply Forall_impl; [|exact H1]. intros; apply ins_visit_id; auto.
+    + eapply Forall_impl; [|exact H2]. intros; apply ins_visit_id; auto.
+  - exists l1, x, x', l2. auto.
+Qed.
+
+(* Insert.Run, the match is a volume: front and end only *)
+Definition Rfv (front : bool) (s : sel) (nf : node) (h : volhdr) (fs fs' : list node) : Prop :=
+  pred_fv s h = true /\ fs' = (if front then nf :: fs else fs ++ [nf]).
+
+Lemma ins_fv_id front s nf : forall n, cv s n = 0%nat -> ins_fv front s nf n = n.
+Proof.
+  induction n as [h buf kids IH | h buf kids IH | h buf kids IH | off buf] using node_ind'; intros Hc;
+    cbn [cv] in Hc; cbn [ins_fv].
+  - f_equal. pose proof (list_sum_map_zero _ _ Hc) as Hz. rewrite Forall_forall in *.
+    rewrite <- (map_id kids) at 2. apply map_ext_in. intros x Hx. apply IH; auto.
+  - f_equal. pose proof (list_sum_map_zero _ _ Hc) as Hz. rewrite Forall_forall in *.
+    rewrite <- (map_id kids) at 2. apply map_ext_in. intros x Hx. apply IH; auto.
+  - destruct (pred_fv s h); [lia|]. f_equal. cbn [Nat.add] in Hc.
+    pose proof (list_sum_map_zero _ _ Hc) as Hz. rewrite Forall_forall in *.
+    rewrite <- (map_id kids) at 2. apply map_ext_in. intros x Hx. apply IH; auto.
+  - reflexivity.
+Qed.
+
+Lemma ins_fv_one front s nf : forall n, cv s n = 1%nat ->
+  vol_edit (Rfv front s nf) n (ins_fv front s nf n).
+Proof.
+  induction n as [h buf kids IH | h buf kids IH | h buf kids IH | off buf] using node_ind'; intros Hc;
+    cbn [cv] in Hc; cbn [ins_fv].
+  - destruct (list_sum_map_one _ _ Hc) as (l1 & x & l2 & -> & Hx & H1 & H2).
+    rewrite Forall_forall in IH.
+    rewrite map_one.
+    + constructor. apply IH; auto. apply in_or_app; right; left; reflexivity.
+    + eapply Forall_impl; [|exact H1]. intros; apply ins_fv_id; auto.
+    + eapply Forall_impl; [|exact H2]. intros; apply ins_fv_id; auto.
+  - destruct (list_sum_map_one _ _ Hc) as (l1 & x & l2 & -> & Hx & H1 & H2).
+    rewrite Forall_forall in IH.
+    rewrite map_one.
+    + constructor. apply IH; auto. apply in_or_app; right; left; reflexivity.
+    + eapply Forall_impl; [|exact H1]. intros; apply ins_fv_id; auto.
+    + eapply Forall_impl; [|exact H2]. intros; apply ins_fv_id; auto.
+  - destruct (pred_fv s h) eqn:Ep.
+    + apply ve_here. split; auto.
+    + cbn [Nat.add] in Hc.
+      destruct (list_sum_map_one _ _ Hc) as (l1 & x & l2 & -> & Hx & H1 & H2).
+      rewrite Forall_forall in IH.
+      rewrite map_one.
+      * apply ve_vol. apply IH; auto. apply in_or_app; right; left; reflexivity.
+      * eapply Forall_impl; [|exact H1]. intros; apply ins_fv_id; auto.
+      * eapply Forall_impl; [|exact H2]. intros; apply ins_fv_id; auto.
+  - discriminate Hc.
+Qed.
+
+Lemma insert_vol_spec it s nf elems m :
+  find_elems s elems = [m] -> is_voln m = true ->
+  match it with
+  | IFront => exists elems', insert_run it s nf elems = Ok elems' /\ elems_edit (Rfv true s nf) elems elems'
+  | IEnd => exists elems', insert_run it s nf elems = Ok elems' /\ elems_edit (Rfv false s nf) elems elems'
+  | _ => insert_run it s nf elems = Err E_INSKIND
+  end.
+Proof.
+  intros E Hm. destruct (find_single_vol s elems m E Hm) as [_ Hc].
+  unfold cvl in Hc. destruct (list_sum_map_one _ _ Hc) as (l1 & x & l2 & -> & Hx & H1 & H2).
+  unfold insert_run. rewrite E. destruct m; try discriminate Hm.
+  assert (G : forall front, elems_edit (Rfv front s nf) (l1 ++ x :: l2)
+                              (map (ins_fv front s nf) (l1 ++ x :: l2))).
+  { intros front. rewrite map_one.
+    - exists l1, x, (ins_fv front s nf x), l2. repeat split; auto. apply ins_fv_one; auto.
+    - eapply Forall_impl; [|exact H1]. intros; apply ins_fv_id; auto.
+    - eapply Forall_impl; [|exact H2]. intros; apply ins_fv_id; auto. }
+  destruct it; try reflexivity; eexists; split; try reflexivity; apply G.
+Qed.
+
+Lemma insert_errors it s nf elems :
+  (find_elems s elems = [] -> insert_run it s nf elems = Err E_NOMATCH) /\
+  ((2 <= length (find_elems s elems))%nat -> insert_run it s nf elems = Err E_MULTI).
+Proof.
+  unfold insert_run. split; intros H.
+  - rewrite H. reflexivity.
+  - destruct (find_elems s elems) as [|a [|b r]]; cbn in H; try lia. reflexivity.
+Qed.
+
+(* the abstract list of the edited volume *)
+Lemma abs_files_app a b : abs_files (a ++ b) = abs_files a ++ abs_files b.
+Proof. unfold abs_files. rewrite filter_app, map_app. reflexivity. Qed.
+
+Lemma ins_list_abs it nf l1 f l2 :
+  abs_files (ins_list it nf l1 f l2) =
+  match it with
+  | IFront => abs_files [nf] ++ abs_files l1 ++ abs_files [f] ++ abs_files l2
+  | IEnd | IDxe => abs_files l1 ++ abs_files [f] ++ abs_files l2 ++ abs_files [nf]
+  | IAfter => abs_files l1 ++ abs_files [f] ++ abs_files [nf] ++ abs_files l2
+  | IBefore => abs_files l1 ++ abs_files [nf] ++ abs_files [f] ++ abs_files l2
+  | IReplace => abs_files l1 ++ abs_files [nf] ++ abs_files l2
+  end.
+Proof.
+  destruct it; cbn [ins_list];
+    repeat (rewrite ?abs_files_app;
+            match goal with
+            | |- context [abs_files (?x :: ?l)] =>
+              lazymatch l with [] => fail | _ => change (x :: l) with ([x] ++ l) end
+            end);
+    rewrite ?abs_files_app, <- ?app_assoc; reflexivity.
+Qed.
+
+(* ---------- Remove ---------- *)
+
+(* what the two loops of Remove.Visit compute on one volume's list *)
+Fixpoint rm_list (s : sel) (pol : Z) (pad : bool) (files : list node) : outcome (list node) :=
+  match files with
+  | [] => Ok []
+  | f :: r =>
+    if fmatch s f then
+      if pad || (file_type f =? fv_filetype_peim) then
+        do pf <- pad_node pol (file_ext f); do r' <- rm_list s pol pad r; Ok (pf :: r')
+      else rm_list s pol pad r
+    else do r' <- rm_list s pol pad r; Ok (f :: r')
+  end.
+
+Lemma idx_app_here {A} (l1 : list A) x l2 : idx (zlen l1) (l1 ++ x :: l2) = Some x.
+Proof.
+  unfold idx. pose proof (zlen_nonneg l1). pose proof (zlen_nonneg l2).
+  rewrite zlen_app, zlen_cons.
+  replace ((0 <=? zlen l1) && (zlen l1 <? zlen l1 + (1 + zlen l2))) with true by lia.
+  unfold zlen. rewrite Nat2Z.id. rewrite nth_error_app2 by lia. rewrite Nat.sub_diag. reflexivity.
+Qed.
+
+Lemma set_nth_app_here {A} (l1 : list A) x y l2 :
+  set_nth (length l1) y (l1 ++ x :: l2) = l1 ++ y :: l2.
+Proof. induction l1 as [|a r IH]; cbn; [reflexivity | rewrite IH; reflexivity]. Qed.
+
+Lemma rm_loop_spec s pol pad : forall rest done fuel, (length rest < fuel)%nat ->
+  rm_loop s pol pad fuel (done ++ rest) (zlen done) =
+  (do r' <- rm_list s pol pad rest; Ok (done ++ r')).
+Proof.
+  induction rest as [|f r IH]; intros done fuel Hf; (destruct fuel as [|k]; [inversion Hf|]).
+  - cbn [rm_loop rm_list bind]. rewrite app_nil_r. rewrite Z.ltb_irrefl. reflexivity.
+  - cbn [rm_loop rm_list]. pose proof (zlen_nonneg done). pose proof (zlen_nonneg r).
+    replace (zlen done <? zlen (done ++ f :: r)) with true
+      by (rewrite zlen_app, zlen_cons; lia).
+    rewrite idx_app_here.
+    destruct (fmatch s f) eqn:Em.
+    + destruct (pad || (file_type f =? fv_filetype_peim)) eqn:Ep.
+      * destruct (pad_node pol (file_ext f)) as [pf| | |]; cbn [bind]; try reflexivity.
+        unfold zlen at 1. rewrite Nat2Z.id. rewrite set_nth_app_here.
+        replace (done ++ pf :: r) with ((done ++ [pf]) ++ r) by (rewrite <- app_assoc; reflexivity).
+        rewrite <- zlen_snoc with (x := pf). rewrite IH by (cbn in Hf; lia).
+        destruct (rm_list s pol pad r); cbn [bind]; try reflexivity.
+        rewrite <- app_assoc. reflexivity.
+      * pose proof (slc_prefix done (f :: r)) as E3. rewrite E3. cbn [of_opt bind].
+        assert (E2 : slc (zlen done + 1) (zlen (done ++ f :: r)) (done ++ f :: r) = Some r).
+        { rewrite <- zlen_snoc with (x := f).
+          replace (done ++ f :: r) with ((done ++ [f]) ++ r) by (rewrite <- app_assoc; reflexivity).
+          apply slc_suffix. }
+        rewrite E2. cbn [of_opt bind].
+        replace (zlen done - 1 + 1) with (zlen done) by lia.
+        apply IH. cbn in Hf. lia.
+    + replace (done ++ f :: r) with ((done ++ [f]) ++ r) by (rewrite <- app_assoc; reflexivity).
+      rewrite <- zlen_snoc with (x := f). rewrite IH by (cbn in Hf; lia).
+      destruct (rm_list s pol pad r); cbn [bind]; try reflexivity.
+      rewrite <- app_assoc. reflexivity.
+Qed.
+
+Lemma rm_loop_is_rm_list s pol pad files :
+  rm_loop s pol pad (S (length files)) files 0 = rm_list s pol pad files.
+Proof.
+  pose proof (rm_loop_spec s pol pad files [] (S (length files)) ltac:(lia)) as H.
+  cbn [app] in H. change (zlen (@nil node)) with 0 in H. rewrite H.
+  destruct (rm_list s pol pad files); reflexivity.
+Qed.
+
+(* the tree after Remove: in every volume the matched files are dropped or replaced by a pad
+   file, the others are kept in order and treated the same way inside *)
+Inductive removed (s : sel) (pol : Z) (pad : bool) : node -> node -> Prop :=
+| rmv_vol h buf fs fs1 fs2 : rm_list s pol pad fs = Ok fs1 -> Forall2 (removed s pol pad) fs1 fs2 ->
+    removed s pol pad (NVol h buf fs) (NVol h buf fs2)
+| rmv_file h buf ks ks' : Forall2 (removed s pol pad) ks ks' ->
+    removed s pol pad (NFile h buf ks) (NFile h buf ks')
+| rmv_sec h buf ks ks' : Forall2 (removed s pol pad) ks ks' ->
+    removed s pol pad (NSec h buf ks) (NSec h buf ks')
+| rmv_pad off b : removed s pol pad (NPad off b) (NPad off b).
+
+Lemma map_out_forall2 {A B} (f : A -> outcome B) (R : A -> B -> Prop) :
+  (forall x y, f x = Ok y -> R x y) -> forall l l', map_out f l = Ok l' -> Forall2 R l l'.
+Proof.
+  intros Hf. induction l as [|x r IH]; intros l' H; cbn [map_out] in H.
+  - inversion H. constructor.
+  - apply bind_ok in H as (y & Hy & H). apply bind_ok in H as (ys & Hys & H). inversion H; subst.
+    constructor; auto.
+Qed.
+
+Lemma rm_visit_spec s pol pad : forall d n n',
+  rm_visit d s pol pad n = Ok n' -> removed s pol pad n n'.
+Proof.
+  induction d as [|d IH]; intros n n' H; [discriminate|].
+  destruct n as [h buf kids | h buf kids | h buf kids | off b]; cbn [rm_visit] in H.
+  - apply bind_ok in H as (ks & Hk & H). inversion H; subst. constructor.
+    eapply map_out_forall2; [|exact Hk]. exact IH.
+  - apply bind_ok in H as (ks & Hk & H). inversion H; subst. constructor.
+    eapply map_out_forall2; [|exact Hk]. exact IH.
+  - apply bind_ok in H as (fs & Hf & H). apply bind_ok in H as (fs' & Hk & H). inversion H; subst.
+    rewrite rm_loop_is_rm_list in Hf. econstructor; [exact Hf|].
+    eapply map_out_forall2; [|exact Hk]. exact IH.
+  - inversion H; subst. constructor.
+Qed.
+
+Lemma remove_run_spec d s pol pad elems elems' :
+  remove_run d s pol pad elems = Ok elems' -> Forall2 (removed s pol pad) elems elems'.
+Proof. unfold remove_run. apply map_out_forall2. apply rm_visit_spec. Qed.
+
+(* pad files are invisible in the abstraction: the abstract list loses exactly the matched files *)
+Lemma pad_node_is_pad pol size n : pad_node pol size = Ok n -> is_pad n = true.
+Proof.
+  unfold pad_node. destruct (size <? file_header_min_length); [discriminate|].
+  destruct (negb ((pol =? 255) || (pol =? 0))); [discriminate|].
+  destruct (set_size 0 size false) as [ext attr].
+  unfold checksum_and_assemble. intros H. inversion H; subst. reflexivity.
+Qed.
+
+Lemma rm_list_abs s pol pad : forall fs fs1, rm_list s pol pad fs = Ok fs1 ->
+  abs_files fs1 = abs_files (filter (fun f => negb (fmatch s f)) fs).
+Proof.
+  induction fs as [|f r IH]; intros fs1 H; cbn [rm_list] in H.
+  - inversion H. reflexivity.
+  - cbn [filter]. destruct (fmatch s f) eqn:Em; cbn [negb].
+    + destruct (pad || (file_type f =? fv_filetype_peim)).
+      * apply bind_ok in H as (pf & Hp & H). apply bind_ok in H as (r' & Hr & H). inversion H; subst.
+        change (pf :: r') with ([pf] ++ r'). rewrite abs_files_app, (IH _ Hr).
+        unfold abs_files at 1. cbn [filter]. rewrite (pad_node_is_pad _ _ _ Hp). reflexivity.
+      * apply IH; auto.
+    + apply bind_ok in H as (r' & Hr & H). inversion H; subst.
+      change (f :: r') with ([f] ++ r').
+      change (f :: filter (fun f0 => negb (fmatch s f0)) r) with ([f] ++ filter (fun f0 => negb (fmatch s f0)) r).
+      rewrite !abs_files_app, (IH _ Hr). reflexivity.
+Qed.
+
+(* remove_pad: the pad file has the size asked for *)
+Lemma zlen_zrepeat x n : 0 <= n -> zlen (zrepeat x n) = n.
+Proof.
+  intros H. unfold zrepeat, zlen.
+  assert (Hr : forall k, length (repeatz x k) = k) by (induction k; cbn; auto).
+  rewrite Hr. lia.
+Qed.
+
+Lemma caa_buf_len h ext attr data : zlen (f_guid h) = 16 ->
+  zlen (snd (checksum_and_assemble h ext attr data)) = file_hlen attr + zlen data.
+Proof.
+  intros Hg. unfold checksum_and_assemble. cbn [snd]. unfold file_header_bytes, file_hlen.
+  rewrite !zlen_app, Hg, zlen_le_enc.
+  destruct (attr_large attr); rewrite ?zlen_le_enc;
+    repeat match goal with |- context [zlen (?a :: ?l)] => rewrite (zlen_cons a l) end;
+    rewrite ?zlen_nil; lia.
+Qed.
+
+Lemma pad_node_size pol size n : pad_node pol size = Ok n -> zlen (node_buf n) = size.
+Proof.
+  unfold pad_node. destruct (size <? file_header_min_length) eqn:E1; [discriminate|].
+  destruct (negb ((pol =? 255) || (pol =? 0))); [discriminate|].
+  unfold file_header_min_length, file_header_ext_min_length in *.
+  destruct (set_size 0 size false) as [ext attr] eqn:Es.
+  match goal with |- context [checksum_and_assemble ?h ?e ?a ?d] =>
+    pose proof (caa_buf_len h e a d) as L; destruct (checksum_and_assemble h e a d) as [h' b] end.
+  intros H. inversion H; subst. cbn [node_buf snd] in *.
+  rewrite L by (cbn [f_guid]; apply zlen_zrepeat; lia).
+  unfold set_size in Es. unfold file_hlen.
+  destruct (16777215 <=? size) eqn:E2; inversion Es; subst.
+  - change (attr_large 1) with true. cbv iota. rewrite zlen_zrepeat by lia. lia.
+  - change (attr_large 0) with false. cbv iota. rewrite zlen_zrepeat by lia. lia.
+Qed.
+
+(* the depth fuel of rm_visit suffices: the height of the tree *)
+Fixpoint height (n : node) {struct n} : nat :=
+  match n with
+  | NSec _ _ k => S (fold_right Nat.max 0%nat (map height k))
+  | NFile _ _ k => S (fold_right Nat.max 0%nat (map height k))
+  | NVol _ _ k => S (fold_right Nat.max 0%nat (map height k))
+  | NPad _ _ => 1%nat
+  end.
+
+Lemma height_pos n : (1 <= height n)%nat.
+Proof. destruct n; cbn [height]; lia. Qed.
+
+Lemma height_in x l : In x l -> (height x <= fold_right Nat.max 0%nat (map height l))%nat.
+Proof.
+  induction l as [|y r IH]; intros H; [destruct H|]. cbn [map fold_right].
+  destruct H as [-> | H]; [lia | specialize (IH H); lia].
+Qed.
+
+Lemma map_out_fuel {A B} (f : A -> outcome B) l :
+  map_out f l = Fuel -> exists x, In x l /\ f x = Fuel.
+Proof.
+  induction l as [|x r IH]; cbn [map_out]; [discriminate|].
+  destruct (f x) eqn:E; cbn [bind]; try discriminate.
+  - destruct (map_out f r) eqn:E2; cbn [bind]; try discriminate.
+    intros _. destruct (IH eq_refl) as (y & Hy & Fy). exists y. split; [right; exact Hy | exact Fy].
+  - intros _. exists x. split; [left; reflexivity | exact E].
+Qed.
+
+Lemma pad_node_not_fuel pol size : pad_node pol size <> Fuel.
+Proof.
+  unfold pad_node. destruct (size <? file_header_min_length); [discriminate|].
+  destruct (negb ((pol =? 255) || (pol =? 0))); [discriminate|].
+  destruct (set_size 0 size false). destruct (checksum_and_assemble _ _ _ _). discriminate.
+Qed.
+
+Lemma pad_node_height pol size n : pad_node pol size = Ok n -> height n = 1%nat.
+Proof.
+  unfold pad_node. destruct (size <? file_header_min_length); [discriminate|].
+  destruct (negb ((pol =? 255) || (pol =? 0))); [discriminate|].
+  destruct (set_size 0 size false). destruct (checksum_and_assemble _ _ _ _).
+  intros H. inversion H. reflexivity.
+Qed.
+
+Lemma rm_list_not_fuel s pol pad fs : rm_list s pol pad fs <> Fuel.
+Proof.
+  induction fs as [|f r IH]; cbn [rm_list]; [discriminate|].
+  destruct (fmatch s f).
+  - destruct (pad || (file_type f =? fv_filetype_peim)); auto.
+    pose proof (pad_node_not_fuel pol (file_ext f)).
+    destruct (pad_node pol (file_ext f)); cbn [bind]; try discriminate; try congruence.
+    destruct (rm_list s pol pad r); cbn [bind]; try discriminate; congruence.
+  - destruct (rm_list s pol pad r); cbn [bind]; try discriminate; congruence.
+Qed.
+
+Lemma rm_list_members s pol pad : forall fs fs1, rm_list s pol pad fs = Ok fs1 ->
+  forall x, In x fs1 -> In x fs \/ height x = 1%nat.
+Proof.
+  induction fs as [|f r IH]; intros fs1 H x Hx; cbn [rm_list] in H.
+  - inversion H; subst. destruct Hx.
+  - destruct (fmatch s f).
+    + destruct (pad || (file_type f =? fv_filetype_peim)).
+      * apply bind_ok in H as (pf & Hp & H). apply bind_ok in H as (r' & Hr & H). inversion H; subst.
+        destruct Hx as [<- | Hx]; [right; eapply pad_node_height; eauto|].
+        destruct (IH _ Hr x Hx); [left; right; auto | right; auto].
+      * destruct (IH _ H x Hx); [left; right; auto | right; auto].
+    + apply bind_ok in H as (r' & Hr & H). inversion H; subst.
+      destruct Hx as [<- | Hx]; [left; left; reflexivity|].
+      destruct (IH _ Hr x Hx); [left; right; auto | right; auto].
+Qed.
+
+Lemma rm_visit_no_fuel s pol pad : forall d n, (height n <= d)%nat ->
+  rm_visit d s pol pad n <> Fuel.
+Proof.
+  induction d as [|d IH]; intros n Hh.
+  - destruct n; cbn in Hh; lia.
+  - destruct n as [h buf kids | h buf kids | h buf kids | off b]; cbn [rm_visit]; cbn [height] in Hh.
+    + intros H. destruct (map_out (rm_visit d s pol pad) kids) eqn:E; cbn [bind] in H; try discriminate.
+      apply map_out_fuel in E as (x & Hx & Fx). apply (IH x); auto.
+      pose proof (height_in x kids Hx). lia.
+    + intros H. destruct (map_out (rm_visit d s pol pad) kids) eqn:E; cbn [bind] in H; try discriminate.
+      apply map_out_fuel in E as (x & Hx & Fx). apply (IH x); auto.
+      pose proof (height_in x kids Hx). lia.
+    + intros H. rewrite rm_loop_is_rm_list in H.
+      pose proof (rm_list_not_fuel s pol pad kids).
+      destruct (rm_list s pol pad kids) as [fs| | |] eqn:El; cbn [bind] in H; try discriminate; try congruence.
+      destruct (map_out (rm_visit d s pol pad) fs) eqn:E; cbn [bind] in H; try discriminate.
+      apply map_out_fuel in E as (x & Hx & Fx). apply (IH x); auto.
+      destruct (rm_list_members s pol pad kids fs El x Hx) as [Hin | H1].
+      * pose proof (height_in x kids Hin). lia.
+      * rewrite H1. destruct d; [|lia].
+        (* d = 0: then the volume has height 1, no children *)
+        destruct kids; [cbn in El; inversion El; subst; destruct Hx|].
+        cbn [map fold_right] in Hh. pose proof (height_pos n). lia.
+    + discriminate.
+Qed.
+
+(* ---------- ReplacePE32 ---------- *)
+
+Definition pe_file (pe : bytes) (n : node) : node :=
+  match n with NFile h buf kids => NFile h buf (map (pe_sec pe) kids) | _ => n end.
+
+(* "exactly one file node, one that P selects, is replaced by F of it; every other node is the same" *)
+Inductive file_edit (F : node -> node) (P : node -> bool) : node -> node -> Prop :=
+| fe_here h buf ks : P (NFile h buf ks) = true -> file_edit F P (NFile h buf ks) (F (NFile h buf ks))
+| fe_vol h buf l1 x x' l2 : file_edit F P x x' ->
+    file_edit F P (NVol h buf (l1 ++ x :: l2)) (NVol h buf (l1 ++ x' :: l2))
+| fe_file h buf l1 x x' l2 : file_edit F P x x' ->
+    file_edit F P (NFile h buf (l1 ++ x :: l2)) (NFile h buf (l1 ++ x' :: l2))
+| fe_sec h buf l1 x x' l2 : file_edit F P x x' ->
+    file_edit F P (NSec h buf (l1 ++ x :: l2)) (NSec h buf (l1 ++ x' :: l2)).
+
+Lemma map_id_in {A} (f : A -> A) l : (forall x, In x l -> f x = x) -> map f l = l.
+Proof. intros H. rewrite <- (map_id l) at 2. apply map_ext_in. exact H. Qed.
+
+Lemma pe_visit_id s pe : forall n, cf s n = 0%nat -> pe_visit s pe n = n.
+Proof.
+  induction n as [h buf kids IH | h buf kids IH | h buf kids IH | off buf] using node_ind'; intros Hc;
+    cbn [cf] in Hc; cbn [pe_visit].
+  - f_equal. pose proof (list_sum_map_zero _ _ Hc) as Hz. rewrite Forall_forall in *.
+    apply map_id_in. intros x Hx. apply IH; auto.
+  - destruct (fmatch s (NFile h buf kids)); [lia|]. cbn [Nat.add] in Hc. f_equal.
+    pose proof (list_sum_map_zero _ _ Hc) as Hz. rewrite Forall_forall in *.
+    apply map_id_in. intros x Hx. apply IH; auto.
+  - f_equal. pose proof (list_sum_map_zero _ _ Hc) as Hz. rewrite Forall_forall in *.
+    apply map_id_in. intros x Hx. apply IH; auto.
+  - reflexivity.
+Qed.
+
+Lemma pe_visit_one s pe : forall n, cf s n = 1%nat ->
+  file_edit (pe_file pe) (fmatch s) n (pe_visit s pe n).
+Proof.
+  induction n as [h buf kids IH | h buf kids IH | h buf kids IH | off buf] using node_ind'; intros Hc;
+    cbn [cf] in Hc; cbn [pe_visit].
+  - destruct (list_sum_map_one _ _ Hc) as (l1 & x & l2 & -> & Hx & H1 & H2).
+    rewrite Forall_forall in IH. rewrite map_one.
+    + constructor. apply IH; auto. apply in_or_app; right; left; reflexivity.
+    + eapply Forall_impl; [|exact H1]. intros; apply pe_visit_id; auto.
+    + eapply Forall_impl; [|exact H2]. intros; apply pe_visit_id; auto.
+  - destruct (fmatch s (NFile h buf kids)) eqn:Em.
+    + change (NFile h buf (map (pe_sec pe) kids)) with (pe_file pe (NFile h buf kids)).
+      apply fe_here. exact Em.
+    + cbn [Nat.add] in Hc.
+      destruct (list_sum_map_one _ _ Hc) as (l1 & x & l2 & -> & Hx & H1 & H2).
+      rewrite Forall_forall in IH. rewrite map_one.
+      * apply fe_file. apply IH; auto. apply in_or_app; right; left; reflexivity.
+      * eapply Forall_impl; [|exact H1]. intros; apply pe_visit_id; auto.
+      * eapply Forall_impl; [|exact H2]. intros; apply pe_visit_id; auto.
+  - destruct (list_sum_map_one _ _ Hc) as (l1 & x & l2 & -> & Hx & H1 & H2).
+    rewrite Forall_forall in IH. rewrite map_one.
+    + apply fe_vol. apply IH; auto. apply in_or_app; right; left; reflexivity.
+    + eapply Forall_impl; [|exact H1]. intros; apply pe_visit_id; auto.
+    + eapply Forall_impl; [|exact H2]. intros; apply pe_visit_id; auto.
+  - discriminate Hc.
+Qed.
+
+Lemma replace_pe32_spec_lemma s pe elems m :
+  prefixb [77; 90] pe = true -> find_elems s elems = [m] -> is_filen m = true ->
+  exists l1 x l2, elems = l1 ++ x :: l2 /\
+    replace_pe32_run s pe elems = Ok (l1 ++ pe_visit s pe x :: l2) /\
+    file_edit (pe_file pe) (fmatch s) x (pe_visit s pe x).
+Proof.
+  intros Hp E Hm. destruct (find_single_file s elems m E Hm) as [Hc _].
+  unfold cfl in Hc. destruct (list_sum_map_one _ _ Hc) as (l1 & x & l2 & -> & Hx & H1 & H2).
+  exists l1, x, l2. split; [reflexivity|]. split; [|apply pe_visit_one; auto].
+  unfold replace_pe32_run. rewrite Hp, E. cbn [negb]. rewrite map_one; auto.
+  - eapply Forall_impl; [|exact H1]. intros; apply pe_visit_id; auto.
+  - eapply Forall_impl; [|exact H2]. intros; apply pe_visit_id; auto.
+Qed.
+
+Lemma replace_pe32_errors s pe elems :
+  (prefixb [77; 90] pe = false -> replace_pe32_run s pe elems = Err E_NOTPE) /\
+  (prefixb [77; 90] pe = true -> find_elems s elems = [] -> replace_pe32_run s pe elems = Err E_NOMATCH) /\
+  (prefixb [77; 90] pe = true -> (2 <= length (find_elems s elems))%nat ->
+     replace_pe32_run s pe elems = Err E_MULTI).
+Proof.
+  unfold replace_pe32_run. repeat split; intros H; try rewrite H; try reflexivity.
+  - intros H2. rewrite H2. reflexivity.
+  - intros H2. cbn [negb]. destruct (find_elems s elems) as [|a [|b r]]; cbn in H2; try lia. reflexivity.
+Qed.
+
+(* what happens to the sections of the selected file *)
+Lemma pe_sec_pe32 pe h buf kids : s_type h = section_type_pe32 -> s_gd h = None ->
+  exists h' hdr, pe_sec pe (NSec h buf kids) = NSec h' (hdr ++ pe) [] /\
+                 (zlen hdr = 4 \/ zlen hdr = 8) /\ s_type h' = s_type h.
+Proof.
+  intros Ht Hg. cbn [pe_sec]. rewrite Ht, Z.eqb_refl. unfold gen_sec_header. rewrite Hg.
+  eexists. eexists. split; [cbn [app]; reflexivity|]. split; [|cbn [s_type]; auto].
+  rewrite zlen_app, zlen_le_enc, zlen_cons.
+  match goal with |- context [if ?b then le_enc 4 _ else []] => destruct b end;
+    rewrite ?zlen_le_enc, ?zlen_nil; lia.
+Qed.
+
+Lemma pe_sec_other pe h buf kids : (s_type h =? section_type_pe32) = false ->
+  pe_sec pe (NSec h buf kids) = NSec h buf (map (pe_sec pe) kids).
+Proof. intros Ht. cbn [pe_sec]. rewrite Ht. reflexivity. Qed.
+
+(* ---------- read-only operations, ExecuteCLI ---------- *)
+
+Lemma run_op_read d pol elems : run_op d pol CRead elems = Ok elems.
+Proof. reflexivity. Qed.
+
+Lemma run_ops_app d pol a b elems :
+  run_ops d pol (a ++ b) elems = (do e <- run_ops d pol a elems; run_ops d pol b e).
+Proof.
+  revert elems. induction a as [|c r IH]; intros elems; cbn [app run_ops bind]; [reflexivity|].
+  destruct (run_op d pol c elems); cbn [bind]; auto.
+Qed.
+
+(* dropping the read-only operations from a sequence does not change the tree that is saved *)
+Definition is_read (c : cop) : bool := match c with CRead => true | _ => false end.
+Lemma run_ops_drop_reads d pol cs elems :
+  run_ops d pol cs elems = run_ops d pol (filter (fun c => negb (is_read c)) cs) elems.
+Proof.
+  revert elems. induction cs as [|c r IH]; intros elems; [reflexivity|].
+  cbn [filter]. destruct c; cbn [is_read negb run_ops];
+    try (match goal with |- context [run_op ?a ?b ?c ?e] => destruct (run_op a b c e) end; cbn [bind]; auto; fail).
+  cbn [run_op bind]. apply IH.
+Qed.
+
+(* ---------- the assembler copy: with the repair switched off it is Ffs.asm ---------- *)
+
+Section AsmTie.
+Variable enc : Z -> bytes -> option bytes.
+Variable s2u : bytes -> bytes.
+
+Lemma asm_vol_v_false pol ffs3 h buf files :
+  asm_vol_v false pol ffs3 h buf files = asm_vol pol ffs3 h buf files.
+Proof. destruct files; reflexivity. Qed.
+
+Lemma vol_asm_v_false h buf kids st :
+  vol_asm_v false h buf kids st = vol_asm h buf kids st.
+Proof.
+  unfold vol_asm_v, vol_asm. destruct st as [pol ffs3]. rewrite asm_vol_v_false.
+  destruct (asm_vol pol ffs3 h buf kids) as [[h' nb]| | |]; cbn [bind]; try reflexivity.
+  destruct kids; reflexivity.
+Qed.
+
+Lemma asm_v_sec fx h buf kids st :
+  asm_v enc s2u fx (NSec h buf kids) st =
+  (do ks <- asm_elems_v enc s2u fx kids st; let '(kids', st1) := ks in sec_asm enc s2u h buf kids' st1).
+Proof. reflexivity. Qed.
+Lemma asm_v_file fx h buf kids st :
+  asm_v enc s2u fx (NFile h buf kids) st =
+  (do ks <- asm_elems_v enc s2u fx kids st; let '(kids', st1) := ks in file_asm h buf kids' st1).
+Proof. reflexivity. Qed.
+Lemma asm_v_vol fx h buf kids st :
+  asm_v enc s2u fx (NVol h buf kids) st =
+  match set_polarity (fst st) (fv_polarity (v_attrs h)) with
+  | None => Err E_POLARITY
+  | Some pol0 =>
+    do ks <- asm_elems_v enc s2u fx kids (pol0, false); let '(kids', st1) := ks in
+    do r <- vol_asm_v fx h buf kids' st1; let '(n', st2) := r in Ok (n', (fst st2, snd st))
+  end.
+Proof. reflexivity. Qed.
+
+Lemma asm_sec h buf kids st :
+  asm enc s2u (NSec h buf kids) st =
+  (do ks <- asm_elems enc s2u kids st; let '(kids', st1) := ks in sec_asm enc s2u h buf kids' st1).
+Proof. reflexivity. Qed.
+Lemma asm_file h buf kids st :
+  asm enc s2u (NFile h buf kids) st =
+  (do ks <- asm_elems enc s2u kids st; let '(kids', st1) := ks in file_asm h buf kids' st1).
+Proof. reflexivity. Qed.
+Lemma asm_vol_eq h buf kids st :
+  asm enc s2u (NVol h buf kids) st =
+  match set_polarity (fst st) (fv_polarity (v_attrs h)) with
+  | None => Err E_POLARITY
+  | Some pol0 =>
+    do ks <- asm_elems enc s2u kids (pol0, false); let '(kids', st1) := ks in
+    do r <- vol_asm h buf kids' st1; let '(n', st2) := r in Ok (n', (fst st2, snd st))
+  end.
+Proof. reflexivity. Qed.
+
+Lemma asm_elems_v_false_of l :
+  Forall (fun x => forall st, asm_v enc s2u false x st = asm enc s2u x st) l ->
+  forall st, asm_elems_v enc s2u false l st = asm_elems enc s2u l st.
+Proof.
+  induction 1 as [|x r Hx Hr IH]; intros st; [reflexivity|].
+  cbn [asm_elems_v asm_elems]. rewrite Hx.
+  destruct (asm enc s2u x st) as [[x' st1]| | |]; cbn [bind]; try reflexivity.
+  rewrite IH. reflexivity.
+Qed.
+
+Lemma asm_v_false_lemma : forall n st, asm_v enc s2u false n st = asm enc s2u n st.
+Proof.
+  induction n as [h buf kids IH | h buf kids IH | h buf kids IH | off buf] using node_ind'; intros st.
+  - rewrite asm_v_sec, asm_sec, (asm_elems_v_false_of kids IH). reflexivity.
+  - rewrite asm_v_file, asm_file, (asm_elems_v_false_of kids IH). reflexivity.
+  - rewrite asm_v_vol, asm_vol_eq. destruct (set_polarity (fst st) (fv_polarity (v_attrs h))); [|reflexivity].
+    rewrite (asm_elems_v_false_of kids IH).
+    destruct (asm_elems enc s2u kids (z, false)) as [[kids' st1]| | |]; cbn [bind]; try reflexivity.
+    rewrite vol_asm_v_false. reflexivity.
+  - reflexivity.
+Qed.
+
+Lemma asm_bios_v_false_lemma elems len st :
+  asm_bios_v enc s2u false elems len st = asm_bios enc s2u elems len st.
+Proof.
+  unfold asm_bios_v, asm_bios.
+  rewrite (asm_elems_v_false_of elems) by (apply Forall_forall; intros; apply asm_v_false_lemma).
+  reflexivity.
+Qed.
+
+End AsmTie.
+
+(* DESIGN section 6 #20.  The pinned Assemble hands back the old buffer of a volume whose file list
+   has become empty; the repaired one rebuilds it: header, then erased space up to Length. *)
+Lemma asm_vol_empty_asis pol ffs3 h buf : asm_vol_v false pol ffs3 h buf [] = Ok (h, buf).
+Proof. reflexivity. Qed.
